@@ -6,8 +6,10 @@
    labels in [0, class count), elements = parsed records in order, no empty batch, no batch larger than
    requested) or the library exception; the outcome Fault (undefined behaviour of the C++: division by zero,
    write outside an element, *end() of an empty range) is unreachable for maximumBatchSize >= 1 (CSV) and for
-   the LibSVM importer WITH THE PROPOSED REPAIR (records with non-increasing indices rejected, no record ->
-   empty dataset).  The LibSVM importer AS CODED reaches Fault: C19_F10_*, C19_F11_* (findings F10, F11).
+   the LibSVM importer AS REPAIRED in /repo (commits b597e6a8, de125c41, 0d98833e: records with non-increasing
+   indices rejected, no record -> empty dataset, shape = element dimension; the theorems keep the name
+   `_repaired_`).  The LibSVM importer as coded BEFORE these commits reaches Fault: C19_F10_..., C19_F11_...
+   (findings F10, F11; kept as regression witnesses about the `_coded` definitions of the model).
    COMPARED on every run (tools/c19.py): model = compiled importers on generated files (exact on numbers
    with <= 15 digits), exporters = printers.  MONITORED only: memory safety / termination / exception type
    of the compiled Spirit parsers on arbitrary bytes (ASan+UBSan, SIGALRM); token <-> double conversion;
